@@ -457,6 +457,267 @@ Proof.
   - cbn [adec_s] in Hdec. injection Hdec as <-. cbn [adomb_s aenc_s]. split; [exact HD|]. exists z. auto.
 Qed.
 
+(* ---------- BitField over an unsigned primitive ---------- *)
+Local Open Scope Z_scope.
+
+(* ---------- bit lemmas ---------- *)
+
+Lemma bf_mask_ones bits : bf_mask bits = Z.ones (Z.of_N bits).
+Proof. unfold bf_mask. rewrite Z.ones_equiv. lia. Qed.
+
+Lemma small_bits_high a n i : 0 <= a < 2 ^ n -> 0 <= n -> n <= i -> Z.testbit a i = false.
+Proof.
+  intros [Ha Hlt] Hn Hi. destruct (Z.eq_dec a 0) as [->|Hne]; [apply Z.bits_0|].
+  apply Z.bits_above_log2; [lia|]. apply Z.log2_lt_pow2 in Hlt; lia.
+Qed.
+
+Lemma lor_bound a b k : 0 <= k -> 0 <= a < 2 ^ k -> 0 <= b < 2 ^ k -> 0 <= Z.lor a b < 2 ^ k.
+Proof.
+  intros Hk [Ha Hak] [Hb Hbk]. split; [apply Z.lor_nonneg; auto|].
+  destruct (Z.eq_dec a 0) as [->|Hna]; [now rewrite Z.lor_0_l|].
+  destruct (Z.eq_dec b 0) as [->|Hnb]; [now rewrite Z.lor_0_r|].
+  assert (Hpos : 0 < Z.lor a b).
+  { assert (0 <= Z.lor a b) by (apply Z.lor_nonneg; auto).
+    destruct (Z.eq_dec (Z.lor a b) 0) as [E|E]; [|lia]. apply Z.lor_eq_0_iff in E. lia. }
+  apply Z.log2_lt_pow2; [exact Hpos|]. rewrite Z.log2_lor by lia.
+  apply Z.log2_lt_pow2 in Hak; [|lia]. apply Z.log2_lt_pow2 in Hbk; [|lia]. lia.
+Qed.
+
+Lemma land_mask_range a bits : 0 <= Z.land a (bf_mask bits) <= bf_mask bits.
+Proof.
+  rewrite bf_mask_ones, Z.land_ones by lia. rewrite Z.ones_equiv.
+  pose proof (Z.mod_pos_bound a (2 ^ Z.of_N bits) ltac:(apply Z.pow_pos_nonneg; lia)). lia.
+Qed.
+
+Lemma land_mask_id v bits : 0 <= v <= bf_mask bits -> Z.land v (bf_mask bits) = v.
+Proof.
+  intros H. rewrite bf_mask_ones in *. rewrite Z.land_ones by lia. rewrite Z.ones_equiv in H.
+  apply Z.mod_small. lia.
+Qed.
+
+(* the field at [cur] of any Z that carries [v << cur] there (and nothing of the next fields below cur + bits) *)
+Lemma field_extract Z v cur bits rest :
+  0 <= cur -> 0 <= v <= bf_mask bits ->
+  (forall i, 0 <= i < cur + Z.of_N bits -> Z.testbit rest i = false) ->
+  (forall i, cur <= i -> Z.testbit Z i = Z.testbit (Z.lor (Z.shiftl v cur) rest) i) ->
+  Z.land (Z.shiftr Z cur) (bf_mask bits) = v.
+Proof.
+  intros Hc Hv Hrest HZ. apply Z.bits_inj'. intros i Hi.
+  rewrite Z.land_spec, Z.shiftr_spec by lia. rewrite bf_mask_ones.
+  destruct (Z_lt_ge_dec i (Z.of_N bits)) as [Hlt|Hge].
+  - rewrite Z.ones_spec_low by lia. rewrite andb_true_r.
+    rewrite HZ by lia. rewrite Z.lor_spec, Z.shiftl_spec by lia.
+    rewrite (Hrest (i + cur)) by lia. rewrite orb_false_r. f_equal. lia.
+  - rewrite Z.ones_spec_high by lia. rewrite andb_false_r. symmetry.
+    apply (small_bits_high v (Z.of_N bits)); [|lia|lia].
+    rewrite bf_mask_ones, Z.ones_equiv in Hv. lia.
+Qed.
+
+Lemma piece_high v cur bits i : 0 <= cur -> 0 <= v <= bf_mask bits -> cur + Z.of_N bits <= i ->
+  Z.testbit (Z.shiftl v cur) i = false.
+Proof.
+  intros Hc Hv Hi. rewrite Z.shiftl_spec by lia.
+  apply (small_bits_high v (Z.of_N bits)); [|lia|lia].
+  rewrite bf_mask_ones, Z.ones_equiv in Hv. lia.
+Qed.
+
+Lemma piece_bound v cur bits : 0 <= cur -> 0 <= v <= bf_mask bits -> 0 <= Z.shiftl v cur < 2 ^ (cur + Z.of_N bits).
+Proof.
+  intros Hc Hv. rewrite Z.shiftl_mul_pow2 by lia. rewrite bf_mask_ones, Z.ones_equiv in Hv.
+  rewrite Z.pow_add_r by lia.
+  assert (Hp : 0 < 2 ^ cur) by (apply Z.pow_pos_nonneg; lia).
+  split; [apply Z.mul_nonneg_nonneg; lia|].
+  rewrite (Z.mul_comm (2 ^ cur)). apply Z.mul_lt_mono_pos_r; lia.
+Qed.
+
+(* ---------- one entry ---------- *)
+
+Definition dec_field (fa : option sadapter) (pod : bool) (x : Z) : option value :=
+  match fa with None => Some (VInt x) | Some a => adec_s a pod (VInt x) end.
+Definition enc_field (fa : option sadapter) (v : value) : option value :=
+  match fa with None => Some v | Some a => aenc_s a v end.
+Definition in_mode (sh : bool) (cur v : Z) : Z := if sh then v else Z.shiftl v cur.
+
+Definition entry_ok (sh first : bool) (bits : N) (fa : option sadapter) : bool :=
+  match fa with
+  | None => true
+  | Some ABool => (0 <? bits)%N && (sh || first)
+  | Some a => sa_sound a
+  end.
+
+Lemma items_eqb_refl_of l l' : items_eqb l' l = true -> items_eqb l l = true.
+Proof.
+  revert l'. induction l as [|x l IH]; intros l' H; [reflexivity|].
+  destruct l' as [|y l'']; [discriminate|].
+  destruct y; try discriminate; destruct x; try discriminate; cbn [items_eqb] in *;
+    apply andb_prop in H as [_ H]; rewrite (IH _ H).
+  - now rewrite Z.eqb_refl.
+  - now rewrite N.eqb_refl.
+Qed.
+
+Lemma field_law sh first cur bits fa pod v val :
+  0 <= cur -> (first = true -> cur = 0) -> entry_ok sh first bits fa = true ->
+  0 <= val <= bf_mask bits ->
+  dec_field fa pod (in_mode sh cur val) = Some v ->
+  exists val', 0 <= val' <= bf_mask bits /\
+               enc_field fa v = Some (VInt (in_mode sh cur val')) /\
+               dec_field fa pod (in_mode sh cur val') = Some v /\ fval_eqb v v = true.
+Proof.
+  intros Hc Hfirst Hok Hval Hdec. destruct fa as [a|]; cbn [dec_field enc_field entry_ok] in *.
+  - destruct a as [|tbl strict|tbl|id].
+    + (* Bool *)
+      apply andb_prop in Hok as [Hbits Hpos].
+      assert (Hm1 : 1 <= bf_mask bits).
+      { unfold bf_mask. assert (2 ^ 1 <= 2 ^ Z.of_N bits) by (apply Z.pow_le_mono_r; lia). lia. }
+      assert (Hx : in_mode sh cur val = 0 <-> val = 0).
+      { unfold in_mode. destruct sh; [tauto|]. cbn [orb] in Hpos. rewrite (Hfirst Hpos), Z.shiftl_0_r. tauto. }
+      assert (Hid : forall b, in_mode sh cur b = b).
+      { intros b. unfold in_mode. destruct sh; [reflexivity|]. cbn [orb] in Hpos. now rewrite (Hfirst Hpos), Z.shiftl_0_r. }
+      cbn [adec_s truthy] in Hdec. injection Hdec as <-.
+      destruct (Z.eqb (in_mode sh cur val) 0) eqn:E; cbn [negb].
+      * exists 0. rewrite Hid. cbn. repeat split; try lia; reflexivity.
+      * exists 1. rewrite Hid. cbn. repeat split; try lia; reflexivity.
+    + destruct (sa_law (AEnum tbl strict) pod (fun _ => true) _ v Hok eq_refl eq_refl eq_refl Hdec)
+        as (_ & z' & Henc & _ & Hcan). rewrite (Hcan eq_refl) in Henc.
+      exists val. split; [exact Hval|]. split; [exact Henc|]. split; [exact Hdec|].
+      cbn [adec_s] in Hdec. destruct (find_value (in_mode sh cur val) tbl).
+      * destruct pod; injection Hdec as <-; cbn; [apply N.eqb_refl|apply Z.eqb_refl].
+      * destruct strict; [discriminate|]. injection Hdec as <-. cbn. apply Z.eqb_refl.
+    + destruct (sa_law (AFlag tbl) pod (fun _ => true) _ v Hok eq_refl eq_refl eq_refl Hdec)
+        as (Hdom & z' & Henc & _ & Hcan). rewrite (Hcan eq_refl) in Henc.
+      exists val. split; [exact Hval|]. split; [exact Henc|]. split; [exact Hdec|].
+      cbn [adec_s] in Hdec. injection Hdec as <-. destruct pod; [|cbn; apply Z.eqb_refl].
+      cbn [adomb_s andb] in Hdom. cbn [fval_eqb].
+      destruct (flag_or tbl (flags_to_pod tbl (in_mode sh cur val))); [|discriminate].
+      exact (items_eqb_refl_of _ _ Hdom).
+    + cbn [adec_s] in Hdec. injection Hdec as <-.
+      exists val. cbn. repeat split; try lia; try reflexivity.
+  - injection Hdec as <-. exists val. cbn. repeat split; try lia; try reflexivity.
+Qed.
+
+(* ---------- the whole schema ---------- *)
+
+Definition bnames (fs : bschema) : list N := map (fun f => fst (fst f)) fs.
+
+Lemma entries_ok_cons n bits fa fs sh first :
+  bf_entries_ok ((n, bits, fa) :: fs) sh first = entry_ok sh first bits fa && bf_entries_ok fs sh false.
+Proof. reflexivity. Qed.
+
+Lemma bf_total_cons n bits fa fs : bf_total ((n, bits, fa) :: fs) = (bits + bf_total fs)%N.
+Proof. reflexivity. Qed.
+
+Lemma bf_suffix sh pod fs : forall cur first z kvs pre,
+  0 <= cur -> (first = true -> cur = 0) -> bf_entries_ok fs sh first = true -> nodupN (bnames fs) = true ->
+  (forall m, memN m (bnames fs) = true -> lookup m pre = None) ->
+  bf_field_vals fs pod (bf_unpack fs sh cur z) = Some kvs ->
+  exists ints' z',
+    bf_field_ints fs (pre ++ kvs) = Some ints' /\ bf_pack fs sh cur ints' = Some z' /\
+    0 <= z' < 2 ^ (cur + Z.of_N (bf_total fs)) /\
+    (forall i, 0 <= i < cur -> Z.testbit z' i = false) /\
+    (forall Z, (forall i, cur <= i -> Z.testbit Z i = Z.testbit z' i) ->
+               bf_field_vals fs pod (bf_unpack fs sh cur Z) = Some kvs) /\
+    kvs_eqb kvs kvs = true /\ map fst kvs = bnames fs.
+Proof.
+  induction fs as [|[[n bits] fa] fs IH]; intros cur first z kvs pre Hc Hfirst Hok Hnd Hpre Hdec.
+  - cbn in Hdec. injection Hdec as <-. exists [], 0. cbn [bf_field_ints bf_pack bf_total fold_right].
+    split; [reflexivity|]. split; [reflexivity|]. split.
+    { rewrite Z.add_0_r. split; [lia|apply Z.pow_pos_nonneg; lia]. }
+    split; [intros; apply Z.bits_0|]. split; [reflexivity|]. split; reflexivity.
+  - rewrite entries_ok_cons in Hok. apply andb_prop in Hok as [Hent Hok].
+    cbn [bnames map fst nodupN] in Hnd. apply andb_prop in Hnd as [Hnin Hnd]. apply negb_true_iff in Hnin.
+    fold (bnames fs) in Hnin, Hnd.
+    cbn [bf_unpack bf_field_vals] in Hdec.
+    set (val := Z.land (Z.shiftr z cur) (bf_mask bits)) in Hdec.
+    change (if sh then val else Z.shiftl val cur) with (in_mode sh cur val) in Hdec.
+    change (match fa with None => Some (VInt (in_mode sh cur val)) | Some a => adec_s a pod (VInt (in_mode sh cur val)) end)
+      with (dec_field fa pod (in_mode sh cur val)) in Hdec.
+    destruct (dec_field fa pod (in_mode sh cur val)) as [v|] eqn:Ev; [|discriminate].
+    destruct (bf_field_vals fs pod (bf_unpack fs sh (cur + Z.of_N bits) z)) as [kvs'|] eqn:Et; [|discriminate].
+    injection Hdec as <-.
+    pose proof (land_mask_range (Z.shiftr z cur) bits) as Hval. fold val in Hval.
+    destruct (field_law sh first cur bits fa pod v val Hc Hfirst Hent Hval Ev) as (val' & Hval' & Henc & Hredec & Hvv).
+    assert (Hpre' : forall m, memN m (bnames fs) = true -> lookup m (pre ++ [(n, v)]) = None).
+    { intros m Hm. rewrite lookup_app.
+      assert (Hm' : memN m (bnames ((n, bits, fa) :: fs)) = true).
+      { cbn [bnames map fst]. fold (bnames fs). rewrite memN_cons, Hm. apply orb_true_r. }
+      rewrite (Hpre m Hm'). cbn [lookup]. destruct (N.eqb m n) eqn:E; [|reflexivity].
+      apply N.eqb_eq in E. subst m. rewrite Hm in Hnin. discriminate. }
+    assert (Hc' : 0 <= cur + Z.of_N bits) by (clear - Hc; lia).
+    destruct (IH (cur + Z.of_N bits) false z kvs' (pre ++ [(n, v)]) Hc' ltac:(discriminate) Hok Hnd Hpre' Et)
+      as (ints' & zr & Hfi & Hpk & Hzr & Hlow & Hre & Hkk & Hkeys).
+    set (piece := Z.shiftl val' cur).
+    exists (in_mode sh cur val' :: ints'), (Z.lor piece zr).
+    assert (Hself : memN n (bnames ((n, bits, fa) :: fs)) = true).
+    { cbn [bnames map fst]. rewrite memN_cons, N.eqb_refl. reflexivity. }
+    split.
+    { cbn [bf_field_ints]. rewrite lookup_app, (Hpre n Hself). cbn [lookup]. rewrite N.eqb_refl.
+      change (match fa with None => Some v | Some a => aenc_s a v end) with (enc_field fa v). rewrite Henc.
+      replace (pre ++ (n, v) :: kvs') with ((pre ++ [(n, v)]) ++ kvs') by (rewrite <- app_assoc; reflexivity).
+      now rewrite Hfi. }
+    split.
+    { cbn [bf_pack]. rewrite Hpk. unfold in_mode. destruct sh.
+      - replace (bf_mask bits <? val') with false by (clear - Hval'; lia). reflexivity.
+      - fold piece. unfold piece at 1 2. rewrite <- Z.shiftl_land, (land_mask_id val' bits Hval'), Z.eqb_refl. reflexivity. }
+    pose proof (piece_bound val' cur bits Hc Hval') as Hpb. fold piece in Hpb.
+    split.
+    { rewrite bf_total_cons.
+      replace (cur + Z.of_N (bits + bf_total fs)) with (cur + Z.of_N bits + Z.of_N (bf_total fs)) by (clear; lia).
+      apply lor_bound; [clear - Hc; lia| |exact Hzr].
+      split; [clear - Hpb; lia|]. apply Z.lt_le_trans with (2 ^ (cur + Z.of_N bits)); [clear - Hpb; lia|].
+      apply Z.pow_le_mono_r; clear - Hc; lia. }
+    split.
+    { intros i Hi. rewrite Z.lor_spec. unfold piece. rewrite Z.shiftl_spec_low by (clear - Hi; lia).
+      rewrite (Hlow i) by (clear - Hi; lia). reflexivity. }
+    split.
+    { intros Z HZ. cbn [bf_unpack bf_field_vals].
+      assert (Hx : Z.land (Z.shiftr Z cur) (bf_mask bits) = val').
+      { apply (field_extract Z val' cur bits zr Hc Hval'); [exact Hlow|exact HZ]. }
+      rewrite Hx.
+      change (if sh then val' else Z.shiftl val' cur) with (in_mode sh cur val').
+      change (match fa with None => Some (VInt (in_mode sh cur val')) | Some a => adec_s a pod (VInt (in_mode sh cur val')) end)
+        with (dec_field fa pod (in_mode sh cur val')).
+      rewrite Hredec. rewrite (Hre Z); [reflexivity|].
+      intros i Hi. rewrite (HZ i) by (clear - Hi; lia). rewrite Z.lor_spec. unfold piece.
+      rewrite (piece_high val' cur bits i Hc Hval' Hi). reflexivity. }
+    split.
+    { cbn [kvs_eqb]. now rewrite N.eqb_refl, Hvv, Hkk. }
+    cbn [map fst bnames]. fold (bnames fs). now rewrite Hkeys.
+Qed.
+
+Lemma keys_known fs (kvs : list (N * value)) : map fst kvs = bnames fs ->
+  forallb (fun kv => existsb (fun f => N.eqb (fst kv) (fst (fst f))) fs) kvs = true.
+Proof.
+  intros Hk. apply forallb_forall. intros kv Hin. apply existsb_exists.
+  assert (Hn : In (fst kv) (bnames fs)) by (rewrite <- Hk; now apply in_map).
+  unfold bnames in Hn. apply in_map_iff in Hn as (f & Hf & Hin'). exists f. split; [exact Hin'|].
+  rewrite Hf. apply N.eqb_refl.
+Qed.
+
+(* decode-then-encode of a BitField over an unsigned primitive of width w *)
+Lemma bf_law fs sh pod w z v :
+  bf_entries_ok fs sh true = true -> nodupN (bnames fs) = true -> (bf_total fs <=? 8 * wN w)%N = true ->
+  bf_dec fs sh pod (VInt z) = Some v ->
+  adomb (ABitField fs sh) pod (int_domb (IP false w)) v = true /\
+  exists z', bf_enc fs sh v = Some (VInt z') /\ int_domb (IP false w) (VInt z') = true.
+Proof.
+  intros Hok Hnd Htot Hdec. cbn [bf_dec] in Hdec.
+  destruct (bf_field_vals fs pod (bf_unpack fs sh 0 z)) as [kvs|] eqn:E; [|discriminate]. injection Hdec as <-.
+  destruct (bf_suffix sh pod fs 0 true z kvs [] ltac:(lia) ltac:(reflexivity) Hok Hnd (fun m _ => eq_refl) E)
+    as (ints' & z' & Hfi & Hpk & Hz' & _ & Hre & Hkk & Hkeys).
+  cbn [app] in Hfi.
+  assert (Henc : bf_enc fs sh (VDict kvs) = Some (VInt z')).
+  { cbn [bf_enc]. now rewrite (keys_known fs kvs Hkeys), Hfi, Hpk. }
+  assert (HD : int_domb (IP false w) (VInt z') = true).
+  { apply int_domb_in. cbn [ip_min ip_max]. split; [lia|].
+    assert (2 ^ (0 + Z.of_N (bf_total fs)) <= 2 ^ (8 * Z.of_nat (wbytes w))).
+    { apply Z.pow_le_mono_r; [lia|]. pose proof (wbytes_wN w). lia. }
+    lia. }
+  split; [|eauto].
+  cbn [adomb]. rewrite Henc, HD. cbn [andb bf_dec]. rewrite (Hre z' (fun i _ => eq_refl)). exact Hkk.
+Qed.
+
+Local Close Scope Z_scope.
+
 (* ---------- frames of TypedBytes ---------- *)
 
 Lemma frame_de_sound e k b buf r :
@@ -596,7 +857,18 @@ Proof.
   - (* adapter over an integer primitive *)
     intros cd cs b v rest Hwf Hfr Hb Hag Hd Hr. cbn [sound_frag] in Hfr.
     destruct a as [a'|fs sh]; destruct s; try discriminate Hfr;
-      (destruct p as [ip| |]; try discriminate Hfr); [|destruct ip as [sg w]; destruct sg; discriminate Hfr].
+      (destruct p as [ip| |]; try discriminate Hfr); [|destruct ip as [sg w]; destruct sg; [discriminate Hfr|]].
+    2: { (* BitField *)
+      cbn [ad_sound] in Hfr. apply andb_prop in Hfr as [Hent Htot].
+      cbn [wf awf] in Hwf. cbn [andb] in Hwf. fold (bnames fs) in Hwf.
+      cbn [ser de de_prim domb adomb aenc adec ser_prim canon ad_canon] in *.
+      destruct (dec_int e (IP false w) b) as [[z r]|] eqn:Ez; [|discriminate].
+      destruct (bf_dec fs sh pod (VInt z)) as [v'|] eqn:Ea; [|discriminate]. injection Hd as <- <-.
+      destruct (dec_int_sound _ _ _ _ _ Hb Ez) as (Hrok & _ & _).
+      destruct (bf_law fs sh pod w z v' Hent Hwf Htot Ea) as (Hdom & z' & Henc & HD').
+      split; [exact Hrok|]. split; [exact Hdom|]. rewrite Henc.
+      destruct (enc_int_some e (IP false w) z' (int_domb_out _ z' HD')) as (h' & Henc').
+      exists h'. split; [exact Henc'|]. cbn [andb]. discriminate. }
     cbn [ad_sound] in Hfr. cbn [ser de de_prim domb adomb aenc adec ser_prim canon ad_canon] in *.
     destruct (dec_int e ip b) as [[z r]|] eqn:Ez; [|discriminate].
     destruct (adec_s a' pod (VInt z)) as [v'|] eqn:Ea; [|discriminate]. injection Hd as <- <-.
@@ -882,6 +1154,16 @@ Lemma lenswitch_default_noncanonical_refuted :
                   ser true lenswitch_default_spec [] v = Some b' /\
                   de true false lenswitch_default_spec [] b' = Some (v', []) /\ v' <> v.
 Proof. split; [reflexivity|]. do 3 eexists. vm_compute. repeat split. discriminate. Qed.
+
+(* BitField(shift=False) with a Bool entry away from bit 0: the entry reads bit 7 as True and writes it as 1, which is
+   not a value of its own field - the decoded dict cannot be written *)
+Definition bf_bool_spec : spec :=
+  SAdapter (ABitField [(0, 7, None); (1, 1, Some ABool)] false) (SPrim (PI (IP false W1))).
+
+Lemma bf_bool_unshifted_refuted :
+  wf bf_bool_spec = true /\ sound_frag bf_bool_spec = false /\
+  exists v, de true false bf_bool_spec [] [128] = Some (v, []) /\ ser true bf_bool_spec [] v = None.
+Proof. split; [reflexivity|]. split; [reflexivity|]. eexists. vm_compute. split; reflexivity. Qed.
 
 (* [canon] is about bytes, not values: Bool reads 2 as True and writes 1 (a fixed point after ONE pass, as stated) *)
 Lemma bool_not_canonical :
